@@ -10,6 +10,12 @@ ENG = {
 
 # id -> (engine, technique, level text, level note)
 P = {
+ "C18": ("E2", "explicit-state breadth-first search to closure over each law's mutation API (setters and update with lattice arguments), parameter-tuple reference model, fresh-twin state invariant; closure size cross-checked with stateright",
+         "For each of the 13 univariate laws the search applies, in every reachable state, every setter with every value of a 4-8 value lattice (valid values on both sides of the current ones, boundary values, invalid ones, NaN) and update with every tuple of the lattices, and runs to closure, i.e. it covers mutation histories of every length. Transition oracle: the call must succeed iff the law's own constructor accepts the resulting tuple, whatever the previous state; after a rejected call the object must be observationally equal to the twin of the old or of a partially updated in-domain tuple. State invariant, evaluated once per distinct state: density/mass on 25 points, mean, variance and the first 16 samples after set_seed(s) for three seeds are bitwise those of a freshly constructed twin, and observing twice gives identical streams. Separately: constructing 26 other distribution objects between set_seed and sampling consumes zero generator words (counted by the shim) and leaves the stream unchanged. In the thorough tier the unique-state count of each closure is re-derived with stateright's BFS checker on 1 and 16 threads and must agree.",
+         "Validity is defined by the constructor. The state key is the derived Debug string (all private fields incl. cached samplers). Seeded streams run on the upstream generator through the pass-through shim."),
+ "C19": ("E1", "exhaustive enumeration of scripted RNG answers (bounded-integer index draws) on the real resamplers: all answer sequences for small n, deviation-bounded (<=2 / <=1 deviations from a base script) up to n=40; selection/permutation reference model",
+         "The only nondeterminism of bootstrap/shuffle/shuffle_two is alea's bounded integer; the shim scripts it. bootstrap: every answer sequence for (n, resamples) in {(1,1..3),(2,1..3),(3,1..2),(4,1)} and every sequence within 2 deviations (n<=12) or 1 deviation (n<=40) of the all-zero script for 1..=3 resamples; shuffle and shuffle_two: all 3^12 answer sequences for n<=3, and <=2 (n<=8) / <=1 (n<=40) deviations around two base scripts. Every run checks the kind, range (exactly n values) and number of the draws, then out[r][i] = data[answer[r n + i]] for bootstrap, and for the shuffles that the output equals the composition of the scripted transpositions applied to both arrays (hence a permutation, and paired), with distinct, repeated and NaN/+-0/inf labels compared by bits. jackknife: every length 1..=64 against the leave-one-out definition, and it must draw nothing.",
+         "Equal likelihood of positions is decided structurally (one uniform draw over exactly n values mapped by the identity), not statistically. 100 real-seed runs are an undeciding supplement."),
  "C15": ("E2", "explicit-state breadth-first search over sequences of structural operations on the real Matrix (labelled elements), lock-step row-major reference model, state invariant evaluated once in every distinct state; bounded-exhaustive enumeration for constructors/predicates",
          "From nine labelled start matrices (non-square, with zeros and a symmetric one) every sequence of up to 8 (12 thorough) operations out of ~100 per state - t/t_mut, reshape/reshape_mut/Vector::reshape with all (r,c) in {-2,-1,0,1,2,3,4,6}^2 (valid, inferred, non-dividing, impossible), hcat/vcat/hrepeat/vrepeat, row/column extraction incl. one-past-the-end, in-place row/column sign maps, flat replace, diag, to_vec/to_matrix, both layout conversions - is executed on the real object and on a Vec-of-rows model; each transition compares outcome class (value/panic) and full content, a rejected in-place request must leave the object unchanged, and in every distinct state (8.8e4 quick, 4.7e6 thorough) data.len()=rows x cols and all accessors/predicates ([i,j], [i], flat_idx, rows, columns, diag, shape, size, iteration, is_square/symmetric/upper/lower, out-of-range panics) are compared with the model. Constructors (eye, zeros, ones, diag_matrix, diag, toeplitz, vandermonde, design, transpose, is_matrix/is_square/is_symmetric/is_design) for all sizes 1..=64, arange/linspace on lattices (462 / 2304 instances), rotations at k pi/8 for three axes, and the approximate-equality predicates on all pairs of a 9-value alphabet are enumerated exhaustively.",
          "The reachable set is not small (transposes of all factorisations generate a large permutation group), so the search is bounded by depth under a 12-element cap; impossible reshape requests are tried in full on objects of <=4 elements and as a state-hash-selected 1/8 subset elsewhere; sign maps only on objects of <=4 (6) elements. Level-synchronous BFS written in the harness (stateright's state-count/timeout caps did not stop its multi-threaded BFS; stateright is kept for cross-checking closures)."),
